@@ -1,7 +1,8 @@
 (** C17 — entry point of the correspondence check (model side): one case is a whole history of
     an [AudioManager]: modulators / clocks / probes added, commands, drops, callbacks. *)
 From Coq Require Import ZArith List Bool.
-From KV Require Import Base.IEEE Base.Outcome Base.Num Base.Corr C19.Model C19.Run C17.Model.
+From KV Require Import Base.IEEE Base.Outcome Base.Num Base.Corr C19.Model C19.Run C17.Model C17.ModelX.
+From KV Require C15.Model C15.BaseF32.
 Import ListNotations.
 Local Open Scope Z_scope.
 
@@ -48,7 +49,29 @@ Inductive rop :=
 | RAddProbe (pid watch : Z) (v : rvalue)
 | RAddClockProbe (pid cid : Z)
 | RCb (frames : Z).
-Inductive case := CScen (sr ibs : Z) (ops : list rop) (sin_tab : list (Z * Z)) (pow_tab : list (Z * Z * Z)).
+(** start times with clock times (the clock of a [CTw] case has id 0) *)
+Inductive rstart := RSImm | RSDelay (ns : Z) | RSClock (cid tk fr : Z).
+Inductive rxtween := RXTween (st : rstart) (dur_ns ekind ep : Z).
+(** a tweener's command history: [set]s (only the last one before a callback is read), the clock's
+    [start] / [pause], callbacks *)
+Inductive rtwop := RTwSet (target : Z) (tw : rxtween) | RTwTicking (b : Z) | RTwCb (frames : Z).
+(** listener positions: [Vec3] of binary32 *)
+Inductive rvvalue :=
+| RVFixed (x y z : Z)
+| RVMod (id lo hi : Z) (ax ay az bx by_ bz : Z) (ekind ep : Z).
+Inductive rxop :=
+| RXBase (o : rop)
+| RXAddListener (lid : Z) (pos : rvvalue)
+| RXSetListener (lid : Z) (target : rvvalue) (tw : rxtween)
+| RXAddSpat (sid lid ex ey ez watch cid : Z)
+| RXTicking (cid b : Z)
+| RXCb (frames : Z).
+Inductive case :=
+| CScen (sr ibs : Z) (ops : list rop) (sin_tab : list (Z * Z)) (pow_tab : list (Z * Z * Z))
+(** one tweener, optionally one clock (ticks per second), observed once per chunk *)
+| CTw (sr ibs init : Z) (clock_tps : option Z) (ops : list rtwop) (pow_tab : list (Z * Z * Z))
+(** a manager with listeners and spatial tracks carrying probe effects *)
+| CLis (sr ibs : Z) (ops : list rxop) (sin_tab : list (Z * Z)) (pow_tab : list (Z * Z * Z)).
 
 Definition mk_value (v : rvalue) : value f64 :=
   match v with
@@ -107,10 +130,76 @@ Definition observe (log : list (event f64)) (o : rop) : list Z :=
   | _ => []
   end.
 
+Definition mk_start (st : rstart) : xstart f64 :=
+  match st with
+  | RSImm => XImmediate
+  | RSDelay ns => XDelayed ns
+  | RSClock cid tk fr => XClock cid tk (f64_of_bits fr)
+  end.
+Definition mk_xtween (t : rxtween) : xtween f64 :=
+  match t with
+  | RXTween st dur ek ep => {| xt_start := mk_start st; xt_dur := dur; xt_easing := mk_easing ek ep |}
+  end.
+Definition mk_twop (o : rtwop) : twop f64 :=
+  match o with
+  | RTwSet target tw => TwSet (f64_of_bits target) (mk_xtween tw)
+  | RTwTicking b => TwTicking (negb (b =? 0))
+  | RTwCb frames => TwCb frames
+  end.
+
+(** [Vec3] in binary32: [Tweenable::interpolate = a + (b - a) * amount as f32], [Vec3::distance] *)
+Definition v3 := C15.Model.vec3 f32.
+Definition mk_v3 (x y z : Z) : v3 := C15.Model.V3 (f32_of_bits x) (f32_of_bits y) (f32_of_bits z).
+Definition v3_interp (a b : v3) (t : f64) : v3 := C15.Model.v_interp a b (f64_to_f32 t).
+Definition v3_dist (a b : v3) : f32 := C15.Model.v_length (C15.Model.v_sub a b).
+Definition enc_v3 (v : v3) : list Z :=
+  [bits_of_f32 (C15.Model.vx v); bits_of_f32 (C15.Model.vy v); bits_of_f32 (C15.Model.vz v)].
+Definition mk_vvalue (v : rvvalue) : vvalue f64 v3 :=
+  match v with
+  | RVFixed x y z => VVFixed (mk_v3 x y z)
+  | RVMod id lo hi ax ay az bx by_ bz ek ep =>
+      VVFromMod id {| vin_lo := f64_of_bits lo; vin_hi := f64_of_bits hi; vout_lo := mk_v3 ax ay az;
+                      vout_hi := mk_v3 bx by_ bz; vm_easing := mk_easing ek ep |}
+  end.
+Definition mk_xop (o : rxop) : xop f64 v3 :=
+  match o with
+  | RXBase o => XBase (mk_op o)
+  | RXAddListener lid pos => XAddListener lid (mk_vvalue pos) (mk_v3 0 0 0)
+  | RXSetListener lid target tw => XSetListener lid (mk_vvalue target) (mk_xtween tw)
+  | RXAddSpat sid lid ex ey ez watch cid =>
+      XAddSpat sid {| sp_listener := lid; sp_emitter := mk_v3 ex ey ez; sp_watch := watch; sp_clock := cid |}
+  | RXTicking cid b => XClockTicking cid (negb (b =? 0))
+  | RXCb frames => XCallback frames
+  end.
+Definition enc_spat_event (e : spat_event f64 v3 f32) : list Z :=
+  se_sid e :: se_len e :: enc_opt (se_mod e)
+    ++ match se_clock e with
+       | Some (tk, ticks, fr) => [1; (if tk : bool then 1 else 0); ticks; bits_of_f64 fr]
+       | None => [0; 0; 0; 0]
+       end
+    ++ match se_pos e with
+       | Some (p, pp) => 1 :: enc_v3 p ++ enc_v3 pp
+       | None => [0; 0; 0; 0; 0; 0; 0]
+       end
+    ++ match se_dist e with Some d => [1; bits_of_f32 d] | None => [0; 0] end.
+
 Definition run (c : case) : list Z :=
   match c with
   | CScen sr ibs ops sin_tab pow_tab =>
       let st := run_ops tau64 (sin64_tab sin_tab) (powf64_tab pow_tab) secs_to_ns64 ns_to_secs64
                         sr ibs (map mk_op ops) in
       flat_map (observe (r_log st)) ops
+  | CTw sr ibs init clock_tps ops pow_tab =>
+      map bits_of_f64
+        (tw_run (powf64_tab pow_tab) secs_to_ns64 ns_to_secs64 sr ibs (f64_of_bits init)
+                (option_map (fun tps => clock_new (VFixed (f64_of_bits tps)) false) clock_tps)
+                (map mk_twop ops))
+  | CLis sr ibs ops sin_tab pow_tab =>
+      let st0 : cstate f64 v3 f32 :=
+        {| k_base := init_state sr; k_lis := []; k_spat := []; k_calls := []; k_slog := [] |} in
+      let st := fold_left (xapply tau64 (sin64_tab sin_tab) (powf64_tab pow_tab) secs_to_ns64 ns_to_secs64
+                                  v3 v3_interp f32 v3_dist real_order ibs) (map mk_xop ops) st0 in
+      (* per spatial track in creation order (the mixer's iteration order over its sub-tracks is the arena's) *)
+      flat_map (fun sid => flat_map (fun e => if se_sid e =? sid then enc_spat_event e else []) (k_slog st))
+               (flat_map (fun o => match o with RXAddSpat sid _ _ _ _ _ _ => [sid] | _ => [] end) ops)
   end.
